@@ -89,6 +89,8 @@ def gen_rows(rng, homogeneous):
             else:
                 v = gen_value(rng)
             row.append([k, v])
+        if rng.random() < 0.4:
+            rng.shuffle(row)          # same keys, filled in a different order
         rows.append({"__row__": row})
     return rows
 
